@@ -304,6 +304,7 @@ def _body(c, stats: Stats):
             prepared = prepare_thunks(c)
         except Exception as e:
             raise Violation('[thunk] building / analysing %s raised %s: %s' % ([a.describe() for a in c['apps']], type(e).__name__, str(e)[:300]), cj, 'thunk-build')
+        known_redundant = False
         for kind in ['serializing'] + [k for k in STACKS if k != 'serializing']:
             out, sinks, adv = run_thunks(c, kind, prepared)
             outcomes[kind] = out
@@ -315,6 +316,15 @@ def _body(c, stats: Stats):
             if out[0] == 'ok' and sinks is not None:
                 res = M.verify(*[s.getvalue() for s in sinks])
                 machine_checked += 1
+                if res[0] != 'ACCEPT' and 'redundant' in res[1] and (known_redundant or kind == 'serializing' or not all(R.well_formed(a) for a in advertised)):
+                    known_redundant = True
+                    # known finding recorded under C02 (KNOWN_FINDINGS.txt, key checker-rejects:redundant-subst): the toolkit stacks
+                    # a substitution on a pending substitution that already removes the variable; the machine refuses to build the
+                    # term.  Not an interpreter disagreement: the machine part of the oracle is skipped for this case (counted),
+                    # the agreement of the interpreters among themselves is still judged below.
+                    stats.excluded['thunk-machine-oracle-skipped:known-C02-redundant-subst'] += 1
+                    machine_checked -= 1
+                    continue
                 if res[0] != 'ACCEPT':
                     raise Violation('[thunk] module serialised under stack %s is rejected by the documented machine (%s): %s wrap=%s %s'
                                     % (kind, res[1], [a.describe() for a in c['apps']], c['wrap'], c['wrap_arg']), cj, 'thunk-machine:' + kind)
